@@ -22,7 +22,7 @@ func init() {
 				"kind test) and its result is used. (C06.unexp) a struct field value returned by resolveIndex comes from the exported-only cache (buildCache stores a field only under PkgPath == \"\") " +
 				"or lies behind the PkgPath test. (C06.nil) resolveIndex tests for a nil interface before MethodByName, indirect() stops at nil, every failing return of the resolver carries a " +
 				"non-nil error, and the only (zero value, nil error) result is the absent map key at the end of a chain. (C06.same) a.b, a.b.c, a[\"b\"] and isset all resolve through resolveIndex " +
-				"and perform no reflect lookup of their own.",
+				"and perform no reflect lookup of their own. (C06.cache) every value stored into the struct field-index cache (the per-type map and each field's index path) is a fresh allocation made for that entry, never storage shared with a sibling path or the caller.",
 			NotDecided:  "that reflection finds the right field for every type shape (promoted/shadowed fields), pointer-receiver methods on non-addressable values, executeSet's writes.",
 			Assumptions: []string{"Go's reflect package panics exactly as documented"},
 			Trusted:     commonTrusted,
@@ -39,6 +39,9 @@ func init() {
 			{Name: "method lookup before the nil-interface test", File: "eval.go", Old: "\tv, isNil := indirect(v)\n\tif v.Kind() == reflect.Interface && isNil {\n\t\t// Calling a method on a nil interface can't work. The\n\t\t// MethodByName method call below would panic.\n\t\treturn reflect.Value{}, fmt.Errorf(\"nil pointer evaluating %s.%s\", v.Type(), index)\n\t}\n", New: "\tv, isNil := indirect(v)\n", Rule: "C06.nil"},
 			{Name: "missing struct field yields nil instead of an error", File: "eval.go", Old: "\t\treturn reflect.Value{}, fmt.Errorf(\"can't use %s as field name in struct type %s\", indexAsStr, v.Type())", New: "\t\treturn reflect.Value{}, nil", Rule: "C06.nil"},
 			{Name: "a second resolver for single-segment field access", File: "eval.go", Old: "\t\tfor i := 0; i < len(node.Ident); i++ {\n\t\t\tfield, err := resolveIndex(resolved, reflect.Value{}, node.Ident[i])\n\t\t\tif err != nil {\n\t\t\t\tnode.errorf(\"%v\", err)\n\t\t\t}", New: "\t\tfor i := 0; i < len(node.Ident); i++ {\n\t\t\tif resolved.Kind() == reflect.Map {\n\t\t\t\tresolved = resolved.MapIndex(reflect.ValueOf(node.Ident[i]))\n\t\t\t\tcontinue\n\t\t\t}\n\t\t\tfield, err := resolveIndex(resolved, reflect.Value{}, node.Ident[i])\n\t\t\tif err != nil {\n\t\t\t\tnode.errorf(\"%v\", err)\n\t\t\t}", Rule: "C06.same"},
+			{Name: "field paths share the parent's backing array (agent seed C06/1)", File: "eval.go", Old: "\t\tindex := make([]int, max)\n\t\tcopy(index, parent)\n\t\tindex[len(parent)] = i\n", New: "\t\tindex := append(parent, i)\n\t\t_ = max\n", Rule: "C06.cache"},
+			{Name: "one scratch path allocated outside the field loop", File: "eval.go", Old: "\tfor i := 0; i < numFields; i++ {\n\n\t\tindex := make([]int, max)\n", New: "\tindex := make([]int, max)\n\tfor i := 0; i < numFields; i++ {\n\n", Rule: "C06.cache"},
+			{Name: "equivalent: path built by appending onto a clipped copy", File: "eval.go", Old: "\t\tindex := make([]int, max)\n\t\tcopy(index, parent)\n\t\tindex[len(parent)] = i\n", New: "\t\tindex := append(parent[:len(parent):len(parent)], i)\n\t\t_ = max\n", Rule: "-"},
 			{Name: "absent key in the middle of a chain yields nil instead of an error", File: "eval.go", Old: "\t\t\tif resolved.Kind() == reflect.Map && i == len(node.Field)-1 {", New: "\t\t\tif resolved.Kind() == reflect.Map {", Rule: "C06.nil"},
 		},
 	})
@@ -50,6 +53,7 @@ func runC06(c *an.Ctx) {
 	c06unexp(c)
 	c06nil(c)
 	c06same(c)
+	c06cache(c)
 }
 
 func c06bounds(c *an.Ctx) {
@@ -481,4 +485,27 @@ func c06same(c *an.Ctx) {
 		c.Check(uses, "C06.same", name, f.Pos(), "member access goes through resolveIndex only", fmt.Sprintf("%s no longer resolves members through resolveIndex", name))
 	}
 	_ = types.Typ
+}
+
+// c06cache: the lazily built field-index cache must own every index path and every per-type map it
+// stores.  A path that shares its backing array with a sibling's path (append onto the parent path) makes
+// a.b resolve to another field's value without any error.
+func c06cache(c *an.Ctx) {
+	p := c.P
+	o, _ := p.Jet.Types.Scope().Lookup("cachedStructsFieldIndex").(*types.Var)
+	if o == nil {
+		c.Anchor("C06.cache", "package variable cachedStructsFieldIndex")
+		return
+	}
+	outer, ok := o.Type().Underlying().(*types.Map)
+	if !ok {
+		c.Anchor("C06.cache", "cachedStructsFieldIndex is a map")
+		return
+	}
+	inner := outer.Elem()
+	stores := indexStores(c, func(t types.Type) bool {
+		return types.Identical(t, o.Type()) || (refType(inner) && types.Identical(t, inner))
+	})
+	n := checkFresh(c, "C06.cache", stores, "a cached field path that shares storage with another path (or with its caller's scratch path) is overwritten by the sibling that is cached next, so field access silently yields another field's value", false)
+	c.Expect("C06.cache", "stores into the struct field-index cache", n, 2)
 }
